@@ -28,6 +28,9 @@ type etree struct {
 	inners []error // errors reachable only through single wrapping of a supplied constituent
 	desc   string
 	plain  bool // a single plain (non-aggregate) error
+	// the value is a typed nil pointer inside a non-nil error interface: a
+	// nil input that the combinators must ignore
+	typedNil bool
 	extras int  // annotation / marker errors added by Wrap, Wrapf, ParsePanic
 }
 
@@ -40,6 +43,15 @@ func (g *egen) leaf() etree {
 	g.next++
 	switch simrt.Choose(5) {
 	case 0:
+		// a nil input: the untyped nil, or the nil *Stack the library itself
+		// hands out (AsStack(nil); ers.Ok reports it as "no error")
+		switch simrt.Choose(4) {
+		case 0:
+			var st *ers.Stack
+			return etree{err: st, desc: "nil(*Stack)", typedNil: true}
+		case 1:
+			return etree{err: ers.AsStack(nil), desc: "AsStack(nil)", typedNil: true}
+		}
 		return etree{desc: "nil"}
 	case 1:
 		e := ers.Error(fmt.Sprintf("const-%d", g.next))
@@ -88,7 +100,7 @@ func (g *egen) tree(depth int) etree {
 		// ordinary non-nil error) and fed back into the combinators
 		p := g.tree(depth - 1)
 		st, ok := p.err.(*ers.Stack)
-		if !ok {
+		if !ok || st == nil {
 			return p
 		}
 		d := errors.Unwrap(st)
@@ -149,7 +161,7 @@ func (g *egen) tree(depth int) etree {
 		nonNil := 0
 		var only etree
 		for _, p := range parts {
-			if p.err != nil {
+			if !isNilErr(p.err) {
 				nonNil++
 				only = p
 			}
@@ -164,7 +176,7 @@ func (g *egen) tree(depth int) etree {
 		} else {
 			out.err = ers.Wrapf(p.err, "annotation-%d", 1)
 		}
-		if p.err != nil {
+		if !isNilErr(p.err) {
 			out.extras++
 		}
 		return out
@@ -186,7 +198,7 @@ func (g *egen) tree(depth int) etree {
 	case 6: // ParsePanic
 		p := g.tree(depth - 1)
 		out := merge("ParsePanic("+p.desc+")", p)
-		if p.err == nil {
+		if isNilErr(p.err) {
 			out.err = ers.ParsePanic(nil)
 			return out
 		}
@@ -210,6 +222,16 @@ func (g *egen) tree(depth int) etree {
 	}
 }
 
+// isNilErr: nil, or the nil *Stack (a leaf of that kind passed through
+// untouched is still "no error").
+func isNilErr(err error) bool {
+	if err == nil {
+		return true
+	}
+	st, ok := err.(*ers.Stack)
+	return ok && st == nil
+}
+
 func reachable(from error, target error) bool {
 	for e := from; e != nil; e = errors.Unwrap(e) {
 		if e == target {
@@ -221,11 +243,11 @@ func reachable(from error, target error) bool {
 
 func judgeTree(w *W, t etree, where string) {
 	sig := func(k string) string { return k + ":" + where }
-	if (t.err == nil) != (len(t.leaves) == 0) {
+	if isNilErr(t.err) != (len(t.leaves) == 0) {
 		w.Violate("nil-mismatch", sig("nil-mismatch"), "%s: %d non-nil errors supplied but result is %v", t.desc, len(t.leaves), t.err)
 		return
 	}
-	if t.err == nil {
+	if isNilErr(t.err) {
 		return
 	}
 	unrelated := ers.Error("unrelated-sentinel")
@@ -295,7 +317,7 @@ func c12Trees(w *W) {
 	for i := 0; i < n; i++ {
 		l := g.leaf()
 		errs = append(errs, l.err)
-		if l.err != nil {
+		if !isNilErr(l.err) {
 			nonNil = append(nonNil, l.err)
 		}
 		desc += l.desc + ","
@@ -323,7 +345,7 @@ func c12Trees(w *W) {
 	judgeTree(w, t, "tree")
 	// helpers that decide "is this an error at all" must agree with != nil
 	for _, d := range append(append([]error{}, g.derived...), t.err) {
-		if d == nil {
+		if isNilErr(d) {
 			continue
 		}
 		if ers.Ok(d) || !ers.IsError(d) {
